@@ -12,6 +12,8 @@ RULE = ('contexts: EXH(9 quick / 12 thorough) + FAM + WIDE + RND; observation = 
         'fast_generate_from, fcbo_dual, get_concepts, iterconcepts (with multiplicity, order ignored) and the pairs of '
         'context.lattice; non-trivial = >=4 concepts and some object or property set that is not closed (a canonicity test can fail); '
         'distinct by table')
+from .latfam import INDIRECT_RULE  # noqa: E402
+RULE = RULE + INDIRECT_RULE
 EXHAUSTIVE = {'quick': False, 'thorough': False}
 
 
